@@ -76,7 +76,12 @@ def gen_ty(rng, depth, used, allow_big=True, p_named=0.5, tricky=0.06):
         a[1], b[1] = gen_annot(rng, used, 1 - p_named, tricky), gen_annot(rng, used, 1 - p_named, tricky)
         return ['pair', None, tn, a, b]
     if k < 0.75:
-        if rng.random() < 0.2:   # enum-like
+        k2 = rng.random()
+        if k2 < 0.35:    # balanced union mixing unit and payload variants
+            u = gen_union(rng, rng.choice([2, 2, 3]), used, p_named)
+            u[2] = tn
+            return u
+        if k2 < 0.5:   # enum-like
             a, b = gen_enum(rng, depth - 1, used, p_named), gen_enum(rng, depth - 1, used, p_named)
         else:
             a = gen_ty(rng, depth - 1, used, allow_big, p_named, tricky)
@@ -92,6 +97,43 @@ def gen_ty(rng, depth, used, allow_big=True, p_named=0.5, tricky=0.06):
     if k < 0.955 or not allow_big:
         return ['map', None, tn, gen_cty(rng, min(depth - 1, 2)), gen_ty(rng, depth - 1, set(), False, p_named, tricky)]
     return ['big_map', None, tn, gen_cty(rng, min(depth - 1, 2)), gen_ty(rng, depth - 1, set(), False, p_named, tricky)]
+
+
+def gen_union(rng, depth, used, p_named, mode=None, top=True):
+    """balanced union tree whose subtrees are all-unit, all-payload or mixed, in every arrangement (is_enum must look at
+    EVERY leaf: first child a union with a payload variant + second child a union of units, the mirror image, deeper mixes)"""
+    if mode is None:
+        mode = rng.choice(['mixed', 'mixed', 'mixed', 'units', 'payload'])
+    if depth <= 0 or (not top and rng.random() < 0.3):
+        if mode == 'units' or (mode == 'mixed' and rng.random() < 0.5):
+            return ['unit', None, None]
+        k = rng.random()
+        if k < 0.7:
+            return [rng.choice(['nat', 'int', 'string', 'bytes', 'bool']), None, None]
+        if k < 0.85:
+            return ['pair', None, None, [rng.choice(['nat', 'string']), gen_annot(rng, set(), 0.5), None], ['int', None, None]]
+        return ['option', None, None, ['nat', None, None]]
+    if mode == 'mixed':
+        ma, mb = rng.choice([('payload', 'units'), ('units', 'payload'), ('mixed', 'units'), ('units', 'mixed'),
+                             ('mixed', 'mixed'), ('payload', 'mixed'), ('mixed', 'payload')])
+    else:
+        ma = mb = mode
+    a = gen_union(rng, depth - 1, used, p_named, ma, False)
+    b = gen_union(rng, depth - 1, used, p_named, mb, False)
+    a[1], b[1] = gen_annot(rng, used, 1 - p_named, 0.0), gen_annot(rng, used, 1 - p_named, 0.0)
+    return ['or', None, None, a, b]
+
+
+def or_leaf_count(t):
+    return or_leaf_count(t[3]) + or_leaf_count(t[4]) if t[0] == 'or' else 1
+
+
+def gen_val_leaf(rng, t, idx):
+    """value of a union type taking its idx-th leaf (flat order)"""
+    if t[0] != 'or':
+        return gen_val(rng, t)
+    na = or_leaf_count(t[3])
+    return ('left', gen_val_leaf(rng, t[3], idx)) if idx < na else ('right', gen_val_leaf(rng, t[4], idx - na))
 
 
 def twin(t):
@@ -589,9 +631,12 @@ def run(ctx: lib.Ctx) -> None:
         forced = [None] * nvals
         if 'big_map' in json.dumps(t):
             forced += [0, rng.choice([1, 2, 2 ** 31, 2 ** 64 + 5])]
+        if t[0] == 'or':       # one value per variant (up to 8), so that every leaf of the flattened union is converted
+            nl = or_leaf_count(t)
+            forced = [('leaf', i) for i in (range(nl) if nl <= 8 else rng.sample(range(nl), 8))] + forced[nvals:]
         seen_types.append((t, None))
         for fp in forced:
-            v = gen_val(rng, t, force_ptr=fp)
+            v = gen_val_leaf(rng, t, fp[1]) if isinstance(fp, tuple) else gen_val(rng, t, force_ptr=fp)
             m = val_json(t, v)
             okn, norm = lib.call(lambda: impl.T.from_micheline_value(m).to_micheline_value(mode='readable', lazy_diff=None))
             if not okn:
@@ -668,11 +713,14 @@ def run(ctx: lib.Ctx) -> None:
         ctx.corpus_cases += 1
     for t in FIXED_TYPES:
         add_type(t, 4, 'fixed')
-    ntypes = ctx.n(140, 4000)
+    ntypes = ctx.n(100, 4000)
     for i in range(ntypes):
         depth = rng.choice([1, 2, 2, 3, 3, 4])
         k = rng.random()
-        t = gen_ty(rng, depth, set(), p_named=rng.choice([0.0, 0.3, 0.6, 0.9]), tricky=0.0 if k < 0.7 else 0.2)
+        if rng.random() < 0.15:
+            t = gen_union(rng, rng.choice([2, 2, 3]), set(), rng.choice([0.0, 0.5, 1.0]))
+        else:
+            t = gen_ty(rng, depth, set(), p_named=rng.choice([0.0, 0.3, 0.6, 0.9]), tricky=0.0 if k < 0.7 else 0.2)
         if rng.random() < 0.3:
             t[1] = gen_annot(rng, set(), 0.3)
         add_type(t, ctx.n(3, 4), 'gen')
@@ -687,7 +735,7 @@ def run(ctx: lib.Ctx) -> None:
     entrypoint_checks(ctx, report)
 
     bad_groups = ctx.coq_mismatches('py', IMPORTS, 'fun c => map (run_query (fst c)) (snd c)', 'list_eqb answer_eqb',
-                                    'aty * list query', 'list answer', cases, shard=50)
+                                    'aty * list query', 'list answer', cases, shard=24)
     history_oracle(ctx, started, in_process, seen_types, report)
     bad = []
     for g in ([] if viol else bad_groups[:3]):     # pin down single queries only when no failing input is known yet
@@ -929,6 +977,13 @@ FIXED_TYPES = [
     ['option', None, None, ['big_map', None, None, S('nat'), S('nat')]],
     ['or', None, None, ['big_map', 'a', None, S('nat'), S('nat')], S('nat', 'b')],
     ['big_map', None, None, S('nat'), S('nat')],
+    # balanced unions mixing payload and unit variants (is_enum must consider every leaf)
+    ['or', None, None, ['or', None, None, S('nat', 'set_fee'), S('unit', 'pause')], ['or', None, None, S('unit', 'resume'), S('unit', 'stop')]],
+    ['or', None, None, ['or', None, None, S('unit', 'resume'), S('unit', 'stop')], ['or', None, None, S('nat', 'set_fee'), S('unit', 'pause')]],
+    ['or', None, None, ['or', None, None, S('unit'), S('nat')], ['or', None, None, S('unit'), S('unit')]],
+    ['or', None, None, ['or', None, None, ['or', None, None, S('string'), S('unit')], ['or', None, None, S('unit'), S('unit')]], S('unit', 'last')],
+    ['or', None, None, S('unit', 'first'), ['or', None, None, ['or', None, None, S('unit'), S('int')], ['or', None, None, S('unit'), S('unit')]]],
+    ['pair', None, None, S('nat', 'n'), ['or', 'action', None, ['or', None, None, S('bytes'), S('unit')], ['or', None, None, S('unit'), S('unit')]]],
     # twins: same annotations and shape, other prims
     ['pair', None, None, S('nat', 'a'), S('int')],
     ['pair', None, None, S('nat', 'a'), S('string')],
